@@ -257,6 +257,29 @@ def check(prog, rep):
             pair_ok = True
             why = ""
             s0, s2 = _subs(a0), _subs(a2)
+            if s0 and isinstance(a2, ast.Call) and isinstance(a2.func, ast.Name) and not s2:
+                # right-hand side picked by a local closure rhs_at(i, j): every definition of it must return the
+                # broadcast scalar or the element at exactly its own (first, second) parameter
+                defs = [n for n in ast.walk(fi.node) if isinstance(n, ast.FunctionDef) and n.name == a2.func.id and n is not fi.node]
+                call_idx = "".join(f"[{src(x)}]" for x in a2.args)
+                if defs and call_idx == s0:
+                    pair_ok = True
+                    for dfn in defs:
+                        ps = [a.arg for a in dfn.args.args]
+                        want_idx = "".join(f"[{p_}]" for p_ in ps)
+                        for r_ in [x.value for x in ast.walk(dfn) if isinstance(x, ast.Return) and x.value is not None]:
+                            sr = _subs(r_)
+                            if sr and sr != want_idx:
+                                pair_ok = False
+                                why = f"{dfn.name}({', '.join(ps)}) returns the element at {sr}"
+                            elif not sr and not (isinstance(r_, ast.Name) and r_.id == [a.arg for a in fi.node.args.args][1]):
+                                pair_ok = False
+                                why = f"{dfn.name} returns `{src(r_)[:40]}`"
+                    rep.ob("R10.3", f"{fi.name}", sense_ok and pair_ok,
+                           f"pairs {src(a0)} with {src(a2)} (element picked at the same position by {a2.func.id}) under the given sense" if sense_ok and pair_ok else
+                           (f"passes sense {src(a1)} instead of the given one" if not sense_ok else f"pairs different positions: {why}"),
+                           loc=f"{fi.module.rel}:{c.lineno}", detail=f"pairing:{src(a0)}~{src(a2)}"[:80])
+                    continue
             if s0 and s2:
                 pair_ok = s0 == s2
                 why = f"left index {s0} vs right index {s2}"
@@ -273,8 +296,8 @@ def check(prog, rep):
                    f"pairs {src(a0)} with {src(a2)} under the given sense" if sense_ok and pair_ok else
                    (f"passes sense {src(a1)} instead of the given one" if not sense_ok else f"pairs different positions: {why}"),
                    loc=f"{fi.module.rel}:{c.lineno}", detail=f"pairing:{src(a0)}~{src(a2)}"[:80])
-        if n_mk < 3:
-            raise AnalysisError(f"{fi.name}: fewer than 3 _make_constraint sites")
+        if n_mk < 1:
+            raise AnalysisError(f"{fi.name}: no _make_constraint site")
         # one constraint per element: index loops range over the full element grid
         for c in calls(fi.node, local=False):
             if dotted(c.func) != "_make_constraint":
@@ -288,6 +311,12 @@ def check(prog, rep):
             while p_ is not None and p_ is not fi.node:
                 if isinstance(p_, ast.For):
                     loops[src(p_.target)] = p_.iter
+                if isinstance(p_, (ast.ListComp, ast.GeneratorExp)):
+                    for g in p_.generators:
+                        if not g.ifs:
+                            loops[src(g.target)] = g.iter
+                        else:
+                            loops[src(g.target)] = ast.Name(id="<filtered>", ctx=ast.Load())
                 p_ = getattr(p_, "_parent", None)
             full = True
             why = ""
@@ -356,7 +385,7 @@ def check(prog, rep):
     rep.ob("R10.4", "package", not bad, f"{total} closures are created inside loops in the package; none reads a loop-variant name as a free variable", detail="late-binding-inventory")
     rep.expect_min("R10.1", 18)
     rep.expect_min("R10.2", 4)
-    rep.expect_min("R10.3", 6)
+    rep.expect_min("R10.3", 4)  # 6+ on the confirmed tree; merged pairing sites are fine
     rep.expect_min("R10.4", 10)
     rep.explanation = (
         "Shape rules over all 15 comparison constructors, the normaliser, the violation table and the SciPy record "
